@@ -179,6 +179,7 @@ func runC14() {
 	log.SetOutput(io.Discard)
 	cases := hlib.ReadAllCases[synCase]()
 	results := make([]hlib.Result, len(cases))
+	extras := make([][]string, len(cases))
 	hlib.Parallel(len(cases), 8, func(i int) {
 		c := &cases[i]
 		src := wrapSource(c)
@@ -189,8 +190,10 @@ func runC14() {
 		case "skip":
 			res.V, res.Sig, res.Detail = "skip", "skip:"+o.Why, o.Detail
 		case "viol":
-			res.V, res.Sig = "viol", o.Sig
-			res.Detail = fmt.Sprintf("%s\n  source fragment: %s", o.Detail, strings.ReplaceAll(frag, "\n", "\\n"))
+			sigs := explain("case.go", []byte(src), true, o)
+			res.V, res.Sig = "viol", sigs[0]
+			res.Detail = fmt.Sprintf("%s\n  raw signature: %s\n  source fragment: %s", o.Detail, o.Sig, strings.ReplaceAll(frag, "\n", "\\n"))
+			extras[i] = sigs[1:]
 		}
 		if o.GoTree != nil && res.V != "skip" {
 			got := fragmentOf(o.GoTree, c.Wrap)
@@ -207,7 +210,12 @@ func runC14() {
 		}
 		results[i] = res
 	})
-	for _, r := range results {
+	for i, r := range results {
 		hlib.Emit(r)
+		for _, sig := range extras[i] {
+			x := r
+			x.Sig = sig
+			hlib.Emit(x)
+		}
 	}
 }
